@@ -116,7 +116,8 @@ impl std::fmt::Display for Token {
 
 fn parse_number(lex: &mut Lexer<Token>) -> String {
     let iter = lex.slice().chars().filter(|c| *c != '_');
-    if lex.slice().starts_with("0x") {
+    // the lexer accepts both `0x` and `0X` as the hex prefix
+    if lex.slice().starts_with("0x") || lex.slice().starts_with("0X") {
         iter.skip(2).collect()
     } else {
         iter.collect()
@@ -291,20 +292,28 @@ impl Iterator for Tokenizer<'_> {
                     use self::Text::*;
                     match lex.next() {
                         Some(Ok(Text)) => result += lex.slice(),
-                        Some(Ok(EscapeCharacter)) => match lex.slice().chars().nth(1).unwrap() {
-                            'n' => result.push('\n'),
-                            'r' => result.push('\r'),
-                            't' => result.push('\t'),
-                            '\\' => result.push('\\'),
-                            '"' => result.push('"'),
-                            '\'' => result.push('\''),
-                            c => {
-                                return Some(Err(LexicalError::new(
-                                    format!("Unknown escape character {c}"),
-                                    lex.span(),
-                                )))
+                        Some(Ok(EscapeCharacter)) => {
+                            // The token is a backslash and whatever follows it. When that is a
+                            // multi-byte character the token can end inside it, so the character
+                            // is taken from the source rather than from `lex.slice()`, which
+                            // must not be cut at a non-character boundary.
+                            let start = lex.span().start;
+                            let c = lex.source()[start + 1..].chars().next().unwrap();
+                            match c {
+                                'n' => result.push('\n'),
+                                'r' => result.push('\r'),
+                                't' => result.push('\t'),
+                                '\\' => result.push('\\'),
+                                '"' => result.push('"'),
+                                '\'' => result.push('\''),
+                                c => {
+                                    return Some(Err(LexicalError::new(
+                                        format!("Unknown escape character {c}"),
+                                        start..start + 1 + c.len_utf8(),
+                                    )))
+                                }
                             }
-                        },
+                        }
                         Some(Ok(Codepoint)) => {
                             let slice = lex.slice();
                             let hex = slice[3..slice.len() - 1].replace('_', "");
